@@ -40,7 +40,7 @@ CHECKS = {
                 note='Actual stack bytes are outside the reach of a solver: the stack clause is a sufficient condition plus native amplification.', ref='6/C08'),
     'C09': dict(level='model_checking', engine='kani+mirx', technique=KT + ' for the byte parsers; ' + MT + ' for the token parser and its consumers',
                 text='Rank/Suit/Card/CardPair::from_str on every well-formed UTF-8 string of <= 6 bytes (Kani); HandRangeToken::from_str on every well-formed UTF-8 string of 0..Lmax bytes, then into_iter and to_string on every Ok token: no path ends in a panic.',
-                note='Bounds: byte parsers 6 bytes (Kani) and 12/20 bytes (Engine M); token strings 7 (quick) / 13 (thorough) bytes; whole range strings with symbolic commas and spaces 5 / 7 bytes, a sample of the parsed ranges pushed through rank_pairs, orphan_card_pairs, to_string and the evaluator. S2-S7.', ref='6/C09'),
+                note='Bounds: byte parsers 6 bytes (Kani) and 12/20 bytes (Engine M); token strings 7 (quick) / 13 (thorough) bytes; whole range strings with symbolic commas and spaces 4 / 7 bytes, a sample of the parsed ranges pushed through rank_pairs, orphan_card_pairs, to_string and the evaluator. S2-S7.', ref='6/C09'),
     'C10': dict(level='model_checking', engine='mirx', technique=MT,
                 text='On every Ok path of the token parser over symbolic strings each expanded combo has two different cards and a weight in [0,1] (z3 FP); product lemma x,y in [0,1] => x*y in [0,1]; the no-card-twice consequence is the legality obligation of C02.',
                 note='Bound: token length; weight literals <= 7 significant digits exact, longer by interval (S3).', ref='6/C10'),
